@@ -1166,4 +1166,433 @@ fn expected_scan(h: &Hist, tip: usize, unext: &[usize]) -> Vec<usize> {
     }).collect()
 }
 
+// ------------------------------------------------------------------------------------------------
+// recovery of a crashed directory in the parent
+// ------------------------------------------------------------------------------------------------
+
+struct Crashed {
+    view: StateView,
+    unext: Vec<usize>,
+}
+
+/// (1) open the crashed database without services, evaluate the consistency oracle
+fn inspect_crashed(out: &mut Out, h: &Hist, builder: &mut ChainBuilder, node_dir: &Path, what: &str) -> Option<Crashed> {
+    let path = node_dir.join("db");
+    let db = match std::panic::catch_unwind(std::panic::AssertUnwindSafe(|| ChainDB::new(RocksDB::open_in(&path, COLUMNS), Default::default()))) {
+        Ok(db) => db,
+        Err(_) => {
+            out.oracle_fail("open-failed", &format!("{what}: the crashed database cannot be opened"));
+            return None;
+        }
+    };
+    let r = std::panic::catch_unwind(std::panic::AssertUnwindSafe(|| check_store(out, &db, h, builder, what)));
+    drop(db);
+    match r {
+        Ok((view, unext)) => Some(Crashed { view, unext }),
+        Err(_) => {
+            out.oracle_fail("open-failed", &format!("{what}: reading the crashed database panicked"));
+            None
+        }
+    }
+}
+
+fn start_node(out: &mut Out, h: &Hist, node_dir: &Path, what: &str) -> Option<Node> {
+    let node = match std::panic::catch_unwind(std::panic::AssertUnwindSafe(|| Node::start(node_dir, h.consensus.clone(), &h.cfg))) {
+        Ok(n) => n,
+        Err(_) => {
+            out.oracle_fail("open-failed", &format!("{what}: Node::start panicked on the crashed directory"));
+            return None;
+        }
+    };
+    let t0 = Instant::now();
+    while node.controller().is_verifying_unverified_blocks_on_startup() {
+        if t0.elapsed() > WAIT_TIMEOUT {
+            out.oracle_fail("hang", &format!("{what}: InitLoadUnverified did not finish within 60s"));
+            std::mem::forget(node);
+            return None;
+        }
+        std::thread::sleep(Duration::from_micros(500));
+    }
+    Some(node)
+}
+
+/// Steps (3)-(5): restart, fence, `restart` op, `deliver <tip>` op, then the `post` deliveries.
+/// `expect` = (td, unique head) the node must converge to after `post` (None: not checked).
+/// Returns the final (tip, td).
+fn restart_and_redeliver(out: &mut Out, h: &Hist, node_dir: &Path, crashed: &Crashed, post: &[usize], emit: bool, expect: Option<(u128, Option<usize>)>, what: &str) -> Option<(Option<usize>, u128)> {
+    let node = start_node(out, h, node_dir, what)?;
+    let mut result = None;
+    let mut dead = false;
+    {
+        let mut r = Runner::new(&node, &h.blks, true);
+        let restart_op = format!("restart {} {}", h.consensus.max_epoch_length(), show_ids(&h.scan_order()));
+        if let Err(e) = r.after_restart() {
+            out.oracle_fail("hang", &format!("{what}: after restart: {e}"));
+            if emit {
+                out.op(&restart_op, "hang");
+            }
+            dead = true;
+        }
+        if !dead {
+            let v = r.view();
+            for id in &v.ext_false {
+                out.oracle_fail("ext-false", &format!("{what}: after restart: block {id} has a persisted ext with verified == Some(false)"));
+            }
+            if emit {
+                out.op(&restart_op, &fmt_line(&[], &v));
+            }
+            // not-requeued
+            if let Some(tip) = crashed.view.tip {
+                let scanned = expected_scan(h, tip, &crashed.unext);
+                for _ in 0..scanned.len() {
+                    out.count("restart-requeued");
+                }
+                let left: Vec<usize> = r.pending_looking().into_iter().filter(|c| scanned.contains(c)).collect();
+                if !left.is_empty() {
+                    out.oracle_fail("not-requeued", &format!("{what}: after restart blocks {:?} are still stored without ext although their parent has an ext and is not invalid (crashed store: tip={tip} stored-without-ext={:?}); state: {}", left, crashed.unext, fmt_line(&[], &v)));
+                }
+            }
+            // the tip fence as an ordinary op, then the history again
+            let mut todo: Vec<usize> = vec![];
+            if emit {
+                todo.push(v.tip.unwrap_or(0));
+            }
+            todo.extend(post.iter().copied());
+            let mut last = (v.tip, v.td);
+            for id in todo {
+                match r.deliver(id) {
+                    Ok(d) => {
+                        for x in &d.view.ext_false {
+                            out.oracle_fail("ext-false", &format!("{what}: block {x} has a persisted ext with verified == Some(false)"));
+                        }
+                        if emit {
+                            out.op(&format!("deliver {} {}", id, show_ids(&d.hint)), &fmt_line(&d.cbs, &d.view));
+                        }
+                        last = (d.view.tip, d.view.td);
+                    }
+                    Err(e) => {
+                        out.oracle_fail("hang", &format!("{what}: re-delivery of {id} after restart: {e}"));
+                        if emit {
+                            out.op(&format!("deliver {} -", id), "hang");
+                        }
+                        dead = true;
+                        break;
+                    }
+                }
+            }
+            if !dead {
+                if let Some((td, head)) = expect {
+                    if last.1 != td {
+                        out.oracle_fail("diverged", &format!("{what}: after re-delivering the whole history td={} tip={:?}, the crash-free run ends with td={td}", last.1, last.0));
+                    } else if let Some(hd) = head {
+                        if last.0 != Some(hd) {
+                            out.oracle_fail("diverged", &format!("{what}: after re-delivering the whole history tip={:?}, the unique heaviest valid chain ends in {hd}", last.0));
+                        }
+                    }
+                }
+                result = Some(last);
+            }
+        }
+    }
+    if dead {
+        // a wedged pipeline may never join: leak it
+        std::mem::forget(node);
+        return None;
+    }
+    node.stop();
+    result
+}
+
+// ------------------------------------------------------------------------------------------------
+// generated run
+// ------------------------------------------------------------------------------------------------
+
+struct RefRun {
+    k0: u64,
+    total: u64,
+    dones: Vec<Done>,
+    /// commit counter before delivery i
+    before: Vec<u64>,
+    final_tip: Option<usize>,
+    final_td: u128,
+    reorg: Vec<bool>,
+    any_reorg: bool,
+    any_reject: bool,
+}
+
+fn tip_of(line: &str) -> Option<usize> {
+    line_field(line, "tip=").and_then(|x| x.parse().ok())
+}
+
+fn td_of(line: &str) -> u128 {
+    line_field(line, "td=").and_then(|x| x.parse().ok()).unwrap_or(0)
+}
+
+fn analyse_ref(h: &Hist, log: &ChildLog) -> Option<RefRun> {
+    let k0 = log.start?;
+    let total = log.end?;
+    let mut before = vec![];
+    let mut prev = k0;
+    let mut reorg = vec![];
+    let mut tip = 0usize;
+    let mut any_reject = false;
+    for d in &log.dones {
+        before.push(prev);
+        prev = d.count;
+        let t = tip_of(&d.line).unwrap_or(0);
+        reorg.push(t != tip && !h.is_ancestor_or_self(tip, t));
+        tip = t;
+        if d.line.contains(":err") {
+            any_reject = true;
+        }
+    }
+    let last = log.dones.last()?;
+    Some(RefRun { k0, total, dones: log.dones.clone(), before, final_tip: tip_of(&last.line), final_td: td_of(&last.line), any_reorg: reorg.iter().any(|x| *x), reorg, any_reject })
+}
+
+fn describe_exit(e: &ChildExit, job: &ChildJob) -> String {
+    let tail = std::fs::read_to_string(&job.stderr).unwrap_or_default();
+    let tail: String = tail.lines().rev().take(6).collect::<Vec<_>>().into_iter().rev().collect::<Vec<_>>().join(" | ");
+    format!("exit={e:?} crash={:?} stderr: {}", job.crash, tail)
+}
+
+fn emit_blks(out: &mut Out, h: &Hist) {
+    for b in &h.blks {
+        out.op(&blk_line(b), "ok");
+    }
+}
+
+fn classify(prev: &StateView, next: &StateView) -> &'static str {
+    if next.stored.len() > prev.stored.len() {
+        "crash-in-insert"
+    } else if next.stored.len() < prev.stored.len() {
+        "crash-in-delete"
+    } else if next.ext.len() != prev.ext.len() || next.tip != prev.tip || next.ver != prev.ver {
+        "crash-in-verify-commit"
+    } else {
+        "crash-in-rewrite"
+    }
+}
+
+fn one_history(out: &mut Out, opts: &Opts, rng: &mut Rng, base: &Path, hno: u64, exe: &Path) {
+    let bdir = base.join(format!("b{hno}"));
+    let thorough = opts.thorough();
+    // a history whose reference run contains a reorg or a rejected block, if one of 3 attempts has one
+    let mut chosen = None;
+    for attempt in 0..3 {
+        let _ = std::fs::remove_dir_all(&bdir);
+        let (h, builder, order) = build_history(rng, opts, &bdir);
+        let blocks_file = base.join(format!("h{hno}.blocks"));
+        write_blocks(&blocks_file, &h.blks);
+        let env = ChildEnv { exe: exe.to_path_buf(), out: opts.out.clone(), blocks_file, el: h.el };
+        let job = ChildJob { node_dir: base.join(format!("h{hno}-ref")), log: base.join(format!("h{hno}-ref.log")), stderr: opts.out.join("child-stderr.txt"), ids: order.clone(), crash: None, fenced: false };
+        let _ = std::fs::remove_dir_all(&job.node_dir);
+        let _ = std::fs::remove_file(&job.log);
+        let exit = run_child(&env, &job);
+        out.count("child-run");
+        let log = parse_log(&job.log);
+        let _ = std::fs::remove_dir_all(&job.node_dir);
+        let rr = if exit == ChildExit::Code(0) { analyse_ref(&h, &log) } else { None };
+        let interesting = rr.as_ref().map(|r| r.any_reorg && (attempt > 0 || r.any_reject || hno % 2 == 1)).unwrap_or(true);
+        chosen = Some((h, builder, order, env, job, exit, log, rr));
+        if interesting || attempt == 2 {
+            break;
+        }
+    }
+    let (h, mut builder, order, env, refjob, exit, log, rr) = chosen.unwrap();
+    let delivered: HashSet<usize> = order.iter().copied().collect();
+
+    // ---- Step A: the reference case
+    out.begin_case(&format!("ref el={} hist={} n={}", h.el, hno, h.blks.len() - 1));
+    emit_blks(out, &h);
+    let Some(rr) = rr else {
+        let class = if log.hang.is_some() || exit == ChildExit::Timeout { "hang" } else { "child-failed" };
+        out.oracle_fail(class, &format!("reference run: {} log-hang={:?}", describe_exit(&exit, &refjob), log.hang));
+        for d in &log.dones {
+            out.op(&format!("deliver {} {}", d.id, d.hint), &d.line);
+        }
+        return;
+    };
+    for d in &rr.dones {
+        out.op(&format!("deliver {} {}", d.id, d.hint), &d.line);
+        out.op("commits", &format!("{}", d.count - rr.k0));
+        out.count("deliver");
+    }
+    if rr.any_reorg {
+        out.count("history-with-reorg");
+    }
+    if rr.any_reject {
+        out.count("history-with-rejection");
+    }
+    let (best_td, best_head) = h.best(&delivered);
+    if rr.final_td != best_td {
+        // C01's property, not C08's: reported through the model diff; convergence is checked against the reference
+        out.count("ref-not-maximal");
+    }
+    let expect = Some((rr.final_td, if best_head.is_some() && best_head == rr.final_tip { best_head } else { None }));
+
+    // ---- Step B: every commit index
+    let span = rr.total - rr.k0;
+    let mut ns: Vec<u64> = if thorough || span <= 40 {
+        ((rr.k0 + 1)..=rr.total).collect()
+    } else {
+        (0..40u64).map(|i| rr.k0 + 1 + i * (span - 1) / 39).collect()
+    };
+    ns.dedup();
+    let mut points: Vec<(u64, bool)> = vec![];
+    for (i, n) in ns.iter().enumerate() {
+        points.push((*n, false));
+        if i % 3 == 2 {
+            points.push((*n, true));
+        }
+    }
+    let jobs: Vec<ChildJob> = points
+        .iter()
+        .map(|(n, after)| {
+            let tag = format!("h{hno}-c{n}{}", if *after { "a" } else { "b" });
+            ChildJob { node_dir: base.join(&tag), log: base.join(format!("{tag}.log")), stderr: opts.out.join("child-stderr.txt"), ids: order.clone(), crash: Some(format!("{n}:{}", if *after { "after" } else { "before" })), fenced: false }
+        })
+        .collect();
+    let mut prev_view: Option<(u64, StateView, &'static str)> = None; // for the classification of commit n
+    run_jobs(&env, &jobs, 4, |i, exit| {
+        let (n, after) = points[i];
+        let job = &jobs[i];
+        out.count("child-run");
+        let mode = if after { "after" } else { "before" };
+        out.begin_case(&format!("crash el={} n={} mode={} hist={}", h.el, n, mode, hno));
+        emit_blks(out, &h);
+        let log = parse_log(&job.log);
+        let what = format!("hist={hno} crash n={n} mode={mode}");
+        for d in &log.dones {
+            out.op(&format!("deliver {} {}", d.id, d.hint), &d.line);
+        }
+        let cleanup = || {
+            let _ = std::fs::remove_dir_all(&job.node_dir);
+            let _ = std::fs::remove_file(&job.log);
+        };
+        if exit != ChildExit::Signal(SIGABRT) {
+            if exit == ChildExit::Code(0) {
+                // the commit count of this run differs from the reference run's: not a property violation
+                out.count("child-no-crash");
+                eprintln!("C08: {what}: the child finished without reaching commit {n} (reference total {})", rr.total);
+            } else {
+                let class = if log.hang.is_some() || exit == ChildExit::Timeout { "hang" } else { "child-failed" };
+                out.oracle_fail(class, &format!("{what}: {} log-hang={:?}", describe_exit(&exit, job), log.hang));
+            }
+            cleanup();
+            return;
+        }
+        let Some((id, c0)) = log.inflight else {
+            out.count("crash-outside-delivery");
+            eprintln!("C08: {what}: crash outside a delivery (start={:?})", log.start);
+            cleanup();
+            return;
+        };
+        if log.start != Some(rr.k0) || rr.before.get(log.dones.len()) != Some(&c0) {
+            out.count("commit-count-differs-from-reference");
+        }
+        let k = if after { n + 1 - c0 } else { n - c0 };
+        out.count("crash-point");
+        let Some(crashed) = inspect_crashed(out, &h, &mut builder, &job.node_dir, &what) else {
+            out.op(&format!("crashdeliver {id} {k}"), "unreadable");
+            cleanup();
+            return;
+        };
+        out.op(&format!("crashdeliver {id} {k}"), &fmt_line(&[], &crashed.view));
+        // classification of the commit the crash preceded, from the next crash point's persisted state
+        if !after {
+            if let Some((pn, pv, _)) = &prev_view {
+                if *pn + 1 == n {
+                    out.count(classify(pv, &crashed.view));
+                }
+            }
+            prev_view = Some((n, crashed.view.clone(), "before"));
+        }
+        let in_reorg = rr.reorg.get(log.dones.len()).copied().unwrap_or(false);
+        if !crashed.unext.is_empty() || in_reorg {
+            out.nontrivial(h.fingerprint(&order, &[n, after as u64]));
+        }
+        if in_reorg {
+            out.count("crash-in-reorg-delivery");
+        }
+        if !crashed.unext.is_empty() {
+            out.count("crash-with-unverified-stored");
+        }
+        restart_and_redeliver(out, &h, &job.node_dir, &crashed, &order, true, expect, &what);
+        cleanup();
+    });
+
+    // ---- Step C: repeated crashes (thorough)
+    if thorough && hno % 2 == 0 && span >= 2 {
+        for pair in 0..3u64 {
+            let n1 = rng.range(rr.k0 + 1, rr.total);
+            let n2 = rng.range(1, span + 4);
+            let tag = format!("h{hno}-m{pair}");
+            let dir = base.join(&tag);
+            let _ = std::fs::remove_dir_all(&dir);
+            let j1 = ChildJob { node_dir: dir.clone(), log: base.join(format!("{tag}-1.log")), stderr: opts.out.join("child-stderr.txt"), ids: order.clone(), crash: Some(format!("{n1}:before")), fenced: false };
+            let j2 = ChildJob { node_dir: dir.clone(), log: base.join(format!("{tag}-2.log")), stderr: opts.out.join("child-stderr.txt"), ids: order.clone(), crash: Some(format!("{n2}:before")), fenced: true };
+            out.begin_case(&format!("multi el={} n1={} n2={} hist={}", h.el, n1, n2, hno));
+            emit_blks(out, &h);
+            let what = format!("hist={hno} repeated crashes n1={n1} n2={n2}");
+            let e1 = run_child(&env, &j1);
+            out.count("child-run");
+            let mut ok = e1 == ChildExit::Signal(SIGABRT);
+            if !ok {
+                out.oracle_fail("child-failed", &format!("{what}: first run: {}", describe_exit(&e1, &j1)));
+            }
+            if ok {
+                if inspect_crashed(out, &h, &mut builder, &dir, &format!("{what} (after crash 1)")).is_none() {
+                    ok = false;
+                }
+            }
+            if ok {
+                let e2 = run_child(&env, &j2);
+                out.count("child-run");
+                let l2 = parse_log(&j2.log);
+                match e2 {
+                    ChildExit::Signal(SIGABRT) => out.count("second-crash"),
+                    ChildExit::Code(0) => out.count("second-run-completed"),
+                    _ => {
+                        let class = if l2.hang.is_some() || e2 == ChildExit::Timeout { "hang" } else { "child-failed" };
+                        out.oracle_fail(class, &format!("{what}: second run: {} log-hang={:?}", describe_exit(&e2, &j2), l2.hang));
+                        ok = false;
+                    }
+                }
+            }
+            let mut answer = "td=?".to_string();
+            if ok {
+                if let Some(crashed) = inspect_crashed(out, &h, &mut builder, &dir, &format!("{what} (after crash 2)")) {
+                    out.count("crash-point");
+                    if !crashed.unext.is_empty() {
+                        out.nontrivial(h.fingerprint(&order, &[n1, n2, 7]));
+                    }
+                    if let Some((_, td)) = restart_and_redeliver(out, &h, &dir, &crashed, &order, false, expect, &what) {
+                        answer = format!("td={td}");
+                    }
+                }
+            }
+            out.op(&format!("burst {}", show_ids(&order)), &answer);
+            let _ = std::fs::remove_dir_all(&dir);
+            let _ = std::fs::remove_file(&j1.log);
+            let _ = std::fs::remove_file(&j2.log);
+        }
+    }
+    let _ = std::fs::remove_file(&env.blocks_file);
+    let _ = std::fs::remove_file(&refjob.log);
+    drop(builder);
+    let _ = std::fs::remove_dir_all(&bdir);
+}
+
+fn generate(out: &mut Out, opts: &Opts, base: &Path) {
+    let mut rng = Rng::new(opts.seed);
+    let exe = std::env::current_exe().expect("current_exe");
+    let nh = if opts.thorough() { 20 * opts.scale } else { 2 * opts.scale };
+    let t0 = Instant::now();
+    for hno in 0..nh {
+        one_history(out, opts, &mut rng, base, hno, &exe);
+        eprintln!("C08: history {} done, {} cases, {:.1}s", hno + 1, out.case, t0.elapsed().as_secs_f64());
+    }
+}
+
 // @@NEXT@@
